@@ -24,10 +24,12 @@ typedef LEAF_T Leaf; typedef INNER_T Inner; typedef NODE_T Node; typedef BT_T BT
 #define N_USE(n) ((n)->f0.f1)
 #define NODE_LEVEL(n) ((n)->f0)     /* on a base `node*` */
 #define NODE_USE(n) ((n)->f1)
-#define L_PREV(l) ((l)->f1)
-#define L_NEXT(l) ((l)->f2)
-#define L_KEY(l, i) ((int32_t)(l)->f3.a[i])
-#define I_KEY(n, i) ((int32_t)(n)->f1.a[i])
+/* LeafNode with 8-bit keys: { node f0; pad f1; prev_leaf f2; next_leaf f3; slotdata f4; pad f5 } (clang's explicit padding) */
+#define L_PREV(l) ((l)->f2)
+#define L_NEXT(l) ((l)->f3)
+typedef uint8_t key_t_;       /* key type of the shim */
+#define L_KEY(l, i) ((key_t_)(l)->f4.a[i])
+#define I_KEY(n, i) ((key_t_)(n)->f1.a[i])
 #define I_CHILD(n, i) ((n)->f2.a[i])
 #define LMIN (LS / 2)
 #define IMIN (IS / 2)
@@ -86,13 +88,13 @@ static Leaf* nth_leaf(const BT* t, unsigned i)
   return i <= N_USE(in) ? (Leaf*)I_CHILD(in, i) : 0;
 }
 /* number of stored keys equivalent to g / ordered before g / not ordered after g */
-static uint64_t bt_count(const BT* t, int32_t g, int mode)
+static uint64_t bt_count(const BT* t, key_t_ g, int mode)
 {
   uint64_t c = 0;
   for (unsigned i = 0; i <= IS; i++) {
     Leaf* l = nth_leaf(t, i);
     if (l) for (unsigned s = 0; s < LS; s++) if (s < N_USE(l)) {
-      int32_t k = L_KEY(l, s);
+      key_t_ k = L_KEY(l, s);
       if (mode == 0 ? (!LESS(k, g) && !LESS(g, k)) : (mode == 1 ? LESS(k, g) : !LESS(g, k))) c++;
     }
   }
@@ -118,14 +120,13 @@ static uint64_t pos_index(const BT* t, const uint8_t* leaf, unsigned slot)
   Inner* rt = malloc(sizeof(Inner)); __CPROVER_assume(rt != 0); *rt = in_root;                            \
   for (unsigned i_ = 0; i_ <= IS; i_++) { I_CHILD(rt, i_) = (Node*)lf[i_]; L_PREV(lf[i_]) = i_ ? lf[i_ - 1] : 0; L_NEXT(lf[i_]) = (i_ < IS && i_ < N_USE(rt)) ? lf[i_ + 1] : 0; } \
   if (in_shape == 0) { ROOT(&tr) = 0; HEADL(&tr) = 0; TAILL(&tr) = 0; }                                    \
-  else if (in_shape == 1) { ROOT(&tr) = (Node*)lf[0]; HEADL(&tr) = lf[0]; TAILL(&tr) = lf[0]; L_NEXT(lf[0]) = 0; } \
-  else { __CPROVER_assume(N_USE(rt) >= 1 && N_USE(rt) <= IS); ROOT(&tr) = (Node*)rt; HEADL(&tr) = lf[0]; TAILL(&tr) = lf[N_USE(rt)]; } \
+  else if (in_shape == 1) { __CPROVER_assume(N_LEVEL(lf[0]) == 0); ROOT(&tr) = (Node*)lf[0]; HEADL(&tr) = lf[0]; TAILL(&tr) = lf[0]; L_NEXT(lf[0]) = 0; } \
+  else { __CPROVER_assume(N_LEVEL(rt) == 1 && N_USE(rt) >= 1 && N_USE(rt) <= IS); ROOT(&tr) = (Node*)rt; HEADL(&tr) = lf[0]; TAILL(&tr) = lf[N_USE(rt)]; } \
   INPUT(uint64_t, in_size); INPUT(uint64_t, in_leaves); INPUT(uint64_t, in_inner);                          \
   ST_SIZE(&tr) = in_size; ST_LEAVES(&tr) = in_leaves; ST_INNER(&tr) = in_inner;                            \
   __CPROVER_assume(bt_wf(&tr));                                                                           \
   ir_live_allocs = bt_nodes(&tr); ir_throw_allowed = 0;
-#define BT_FRAME __CPROVER_assigns(*t, __CPROVER_object_whole(n0), __CPROVER_object_whole(n1), __CPROVER_object_whole(n2), __CPROVER_object_whole(n3), __CPROVER_object_whole(n4), __CPROVER_object_whole(n5), ir_live_allocs) \
-                 __CPROVER_frees(n0, n1, n2, n3, n4, n5)
+#define BT_FRAME __CPROVER_assigns(*t, __CPROVER_object_whole(n0), __CPROVER_object_whole(n1), __CPROVER_object_whole(n2), __CPROVER_object_whole(n3), __CPROVER_object_whole(n4), __CPROVER_object_whole(n5), ir_live_allocs) __CPROVER_frees(n0, n1, n2, n3, n4, n5)
 #define NODE_ARGS uint8_t* n0, uint8_t* n1, uint8_t* n2, uint8_t* n3, uint8_t* n4, uint8_t* n5
 #define NODE_VALS (uint8_t*)rt, (uint8_t*)lf[0], (uint8_t*)lf[1], (uint8_t*)lf[2], (uint8_t*)lf[3], (uint8_t*)lf[4]
 #if IS != 4
@@ -134,7 +135,7 @@ static uint64_t pos_index(const BT* t, const uint8_t* leaf, unsigned slot)
 
 #if defined(OP_insert)
 /* insert(k): multiset gains k (set: unless present); invariants; the returned iterator designates k */
-_Bool c_insert(BT* t, int32_t k, struct Pos* at, int32_t g, uint64_t cg, uint64_t ck, uint64_t nodes0, NODE_ARGS)
+_Bool c_insert(BT* t, key_t_ k, struct Pos* at, key_t_ g, uint64_t cg, uint64_t ck, uint64_t nodes0, uint8_t* n0, uint8_t* n1, uint8_t* n2, uint8_t* n3, uint8_t* n4, uint8_t* n5)
 __CPROVER_requires(bt_wf(t) && cg == bt_count(t, g, 0) && ck == bt_count(t, k, 0) && nodes0 == bt_nodes(t) && ir_live_allocs == nodes0)
 __CPROVER_requires(ROOT(t) == 0 || NODE_LEVEL(ROOT(t)) == 0 || NODE_USE(ROOT(t)) < IS)      /* post-state stays within depth 2 */
 __CPROVER_assigns(*t, *at, __CPROVER_object_whole(n0), __CPROVER_object_whole(n1), __CPROVER_object_whole(n2), __CPROVER_object_whole(n3), __CPROVER_object_whole(n4), __CPROVER_object_whole(n5), ir_live_allocs)
@@ -147,7 +148,7 @@ __CPROVER_ensures(ir_live_allocs == bt_nodes(t))
 { return w_bt_insert(t, k, 0, (POS_T*)at); }
 void HARNESS(void)
 {
-  MK_TREE() INPUT(int32_t, in_k); INPUT(int32_t, in_g); struct Pos at;
+  MK_TREE() INPUT(key_t_, in_k); INPUT(key_t_, in_g); struct Pos at;
   __CPROVER_assume(in_shape != 2 || N_USE(rt) < IS);
   c_insert(&tr, in_k, &at, in_g, bt_count(&tr, in_g, 0), bt_count(&tr, in_k, 0), bt_nodes(&tr), NODE_VALS);
   CANARY();
@@ -155,7 +156,7 @@ void HARNESS(void)
 
 #elif defined(OP_erase)
 /* KIND 0: erase_one(k) removes one occurrence if present; KIND 1: erase(k) removes all occurrences and returns their number */
-uint64_t c_erase(BT* t, int32_t k, int32_t g, uint64_t cg, uint64_t ck, NODE_ARGS)
+uint64_t c_erase(BT* t, key_t_ k, key_t_ g, uint64_t cg, uint64_t ck, uint8_t* n0, uint8_t* n1, uint8_t* n2, uint8_t* n3, uint8_t* n4, uint8_t* n5)
 __CPROVER_requires(bt_wf(t) && cg == bt_count(t, g, 0) && ck == bt_count(t, k, 0) && ir_live_allocs == bt_nodes(t))
 BT_FRAME
 __CPROVER_ensures(bt_wf(t))
@@ -165,20 +166,20 @@ __CPROVER_ensures(ir_live_allocs == bt_nodes(t))
 { return KIND == 0 ? (uint64_t)w_bt_erase_one(t, k) : w_bt_erase(t, k); }
 void HARNESS(void)
 {
-  MK_TREE() INPUT(int32_t, in_k); INPUT(int32_t, in_g);
+  MK_TREE() INPUT(key_t_, in_k); INPUT(key_t_, in_g);
   c_erase(&tr, in_k, in_g, bt_count(&tr, in_g, 0), bt_count(&tr, in_k, 0), NODE_VALS);
   CANARY();
 }
 
 #elif defined(OP_lookup)
 /* exists / count / find / lower_bound / upper_bound / begin / end / size / empty against the view; nothing is modified */
-void c_lookup(BT* t, int32_t k, struct Pos* p)
+void c_lookup(BT* t, key_t_ k, struct Pos* p)
 __CPROVER_requires(bt_wf(t))
 __CPROVER_assigns(*p)
 __CPROVER_ensures(w_bt_exists(t, k) == (bt_count(t, k, 0) > 0) && w_bt_count(t, k) == bt_count(t, k, 0))
 __CPROVER_ensures(w_bt_size(t) == ST_SIZE(t) && w_bt_empty(t) == (ST_SIZE(t) == 0))
 { w_bt_exists(t, k); }
-void c_bound(BT* t, int32_t k, struct Pos* p, unsigned which)
+void c_bound(BT* t, key_t_ k, struct Pos* p, unsigned which)
 __CPROVER_requires(bt_wf(t) && which <= 4)
 __CPROVER_assigns(*p)
 /* the position returned is the one whose index in leaf-chain order is: lower_bound -> rank(k) = #keys before k,
@@ -194,7 +195,7 @@ __CPROVER_ensures(ST_SIZE(t) != 0 || p->leaf == 0)
 }
 void HARNESS(void)
 {
-  MK_TREE() INPUT(int32_t, in_k); INPUT(unsigned, in_which); struct Pos p;
+  MK_TREE() INPUT(key_t_, in_k); INPUT(unsigned, in_which); struct Pos p;
   __CPROVER_assume(in_which <= 4);
 #ifdef BOUND
   c_bound(&tr, in_k, &p, in_which);
@@ -229,7 +230,7 @@ void HARNESS(void)
 
 #elif defined(OP_clear)
 /* clear() / destructor: every node returned exactly once, tree empty and reusable */
-void c_clear(BT* t, _Bool dtor, uint64_t nodes0, NODE_ARGS)
+void c_clear(BT* t, _Bool dtor, uint64_t nodes0, uint8_t* n0, uint8_t* n1, uint8_t* n2, uint8_t* n3, uint8_t* n4, uint8_t* n5)
 __CPROVER_requires(bt_wf(t) && nodes0 == bt_nodes(t) && ir_live_allocs == nodes0)
 BT_FRAME
 __CPROVER_ensures(ir_live_allocs == 0)
